@@ -357,11 +357,10 @@ func main() {
 	res := hx.NewResult("direct search: groups of n=3..10 members (k=GetGroupK(n)) built with the groupsig API and with the node's DKG code; " +
 		"every subset of >= k members (quick: all for n<=7, 40 sampled per larger n; thorough: all), 3 arrival orders each, through AddWitnessSign and through RecoverGroupSignature; " +
 		"arrival orders with a piece re-delivered before the threshold (panic or stuck lock inside AddWitnessSign = violation); several messages per group in one process (lengths 0..100, shared 32-byte suffix/prefix, zero-padded forms, shuffled and repeated): Sign = key*HashToPoint(msg) computed independently, share verifies for its own message only, recovered signature verifies under the group key; " +
+		"3-of-5 groups on the executable curve model (every delta_i*sig_i, the combination and gsk*H(m) recomputed by the model and compared with the returned bytes); " +
 		"repeated members and repeated dealer pieces must be refused, RandomPerm/getRandomKSignInfo must return a k-subset, GetGroupK(n) = ceil(51n/100) for n < 3000; " +
 		"model cases: ShareSeckey/AggregateSeckeys scalars, recovery with arbitrary share scalars (map and ordered slices, ids congruent mod r, repeated id), DKG runs, per-member handleSharePiece runs, RandomPerm, GetGroupK, generator runs. " +
 		"non-trivial = distinct (group, subset, order, path) with |subset| >= k, or a model case with >= 2 points")
-	const perShard = 50
-	out := hx.NewCases(a.Out, "From V.C13 Require Import Model Harness.", "case", "check", perShard)
 	cs := &caseBuf{}
 	model.Param.SSSSThreshold = model.SSSS_THRESHOLD
 	model.Param.GroupMemberMax = model.GROUP_MAX_MEMBERS
@@ -862,6 +861,18 @@ func main() {
 			}
 		}
 	}
+	// ---- the group-level recovery on the executable curve model (C14): 3-of-5 groups with real keys;
+	// every scalar multiplication is a separate model case (about 30 s of vm_compute each), the terms are
+	// then combined by the model's affine addition and compared with what RecoverGroupSignature returned
+	curveGroups := 1
+	if thorough {
+		curveGroups = 3
+	}
+	curveBuf := &caseBuf{}
+	for cg := 0; cg < curveGroups; cg++ {
+		curveCases(rng, res, curveBuf, cg, thorough)
+	}
+
 	if thorough {
 		res.Exhaustive = true
 		res.Note("exhaustive: every subset of >= k members for every n in 3..10, 3 arrival orders each")
@@ -874,9 +885,26 @@ func main() {
 	}
 	sort.Strings(keys)
 	fmt.Println("histogram:", strings.Join(keys, " "))
+	// the driver evaluates at most 12 shards at a time.  Every curve case (one ~30 s scalar multiplication)
+	// is a shard of its own (family cases_curveNNN.v); in the quick tier the other cases fill the
+	// remaining slots with equally sized shards
+	perShard := 50
+	if !thorough {
+		slots := 12 - len(curveBuf.terms)
+		if slots < 4 {
+			slots = 4
+		}
+		if ps := (len(cs.terms) + slots - 1) / slots; ps > perShard {
+			perShard = ps
+		}
+	}
+	out := hx.NewCases(a.Out, "From V.C13 Require Import Model Harness.", "case", "check", perShard)
 	cs.flush(out, perShard)
+	curveOut := hx.NewCasesNamed(a.Out, "curve", "From V.C13 Require Import Model Harness.", "case", "check", 1)
+	curveBuf.flush(curveOut, 1)
+	curveOut.Close()
 	out.Close()
-	res.ModelCases = out.Total()
+	res.ModelCases = out.Total() + curveOut.Total()
 	res.Write(a.Out)
 }
 
@@ -949,6 +977,91 @@ func messageFamilies(rng *hx.Rng, res *hx.Result, g *group, tag string) {
 			sigOf[string(msg)] = recHex
 		}()
 		res.Count(fmt.Sprintf("messages-len%d", len(msg)), fmt.Sprint("mf", tag, step, mi), true)
+	}
+}
+
+func ptTerm(b []byte) string {
+	return fmt.Sprintf("(%s, %s)", zs(new(big.Int).SetBytes(b[:32])), zs(new(big.Int).SetBytes(b[32:64])))
+}
+
+func curveCases(rng *hx.Rng, res *hx.Result, cs *caseBuf, cg int, thorough bool) {
+	const n = 5
+	k := model.Param.GetGroupK(n)
+	var g *group
+	if cg%2 == 0 {
+		g = groupViaAPI(rng, res, n, k)
+	} else {
+		g = groupViaDKG(rng, res, &caseBuf{}, n)
+	}
+	msg := rng.Bytes(32)
+	hp := new(bn256.G1)
+	hp.HashToPoint(msg)
+	hb := hp.Marshal()
+	members := perm(rng, n)[:k]
+	xs := make([]*big.Int, k)
+	ids := make([]groupsig.ID, k)
+	sigs := make([]groupsig.Signature, k)
+	m := map[string]groupsig.Signature{}
+	var sigTerms, termTerms []string
+	for t, j := range members {
+		xs[t] = g.ids[j]
+		ids[t] = mkID(g.ids[j])
+		sigs[t] = groupsig.Sign(mkSec(g.keys[j]), msg)
+		m[ids[t].GetHexString()] = sigs[t]
+		sigTerms = append(sigTerms, ptTerm(sigs[t].Serialize()))
+	}
+	in := map[string]interface{}{"ids": strs(xs), "msg": hex.EncodeToString(msg), "via": g.via}
+	var out1, out2 []byte
+	func() {
+		defer func() {
+			if p := recover(); p != nil {
+				res.Violate("C13/curve-panic", fmt.Sprint(p), in)
+			}
+		}()
+		out1 = groupsig.VerifC13RecoverSignature(sigs, ids).Serialize()
+		out2 = groupsig.RecoverGroupSignature(m, k).Serialize()
+	}()
+	if out1 == nil || out2 == nil {
+		return
+	}
+	if hex.EncodeToString(out1) != hex.EncodeToString(out2) {
+		res.Violate("C13/subset-order:curve", "recoverSignature on the ordered slices and RecoverGroupSignature on the map differ", in)
+	}
+	if hex.EncodeToString(out1) != hex.EncodeToString(expectSign(g.gsk, msg)) {
+		res.Violate("C13/subset-order:curve", "recovered signature differs from (group secret)*HashToPoint(msg)", in)
+	}
+	// the terms delta_i * sig_i as the code's own ScalarMult computes them (delta_i by the conduit below;
+	// the model recomputes delta_i itself from the ids)
+	for t := range xs {
+		num, den := big.NewInt(1), big.NewInt(1)
+		for j := range xs {
+			if j != t {
+				num.Mul(num, xs[j]).Mod(num, order)
+				den.Mul(den, new(big.Int).Sub(xs[j], xs[t])).Mod(den, order)
+			}
+		}
+		d := new(big.Int).ModInverse(den, order)
+		d.Mul(d, num).Mod(d, order)
+		sp := new(bn256.G1)
+		sp.Unmarshal(sigs[t].Serialize())
+		tb := new(bn256.G1).ScalarMult(sp, d).Marshal()
+		termTerms = append(termTerms, ptTerm(tb))
+		cs.add(fmt.Sprintf("CCTerm %s %d%%nat %s %s", zlist(xs), t, sigTerms[t], ptTerm(tb)), map[string]interface{}{"kind": "curve-term", "ids": strs(xs), "i": t})
+		res.Count("curve-term", fmt.Sprint("ct", cg, t, strs(xs)), true)
+	}
+	cs.add(fmt.Sprintf("CCCombine %s %s", hx.CoqList(termTerms), ptTerm(out2)), map[string]interface{}{"kind": "curve-combine", "ids": strs(xs), "out": hex.EncodeToString(out2)})
+	res.Count("curve-combine", fmt.Sprint("cc", cg, strs(xs)), true)
+	cs.add(fmt.Sprintf("CCSign %s %s %s", zs(g.gsk), ptTerm(hb), ptTerm(out2)), map[string]interface{}{"kind": "curve-sign-gsk", "gsk": g.gsk.String(), "msg": hex.EncodeToString(msg)})
+	res.Count("curve-sign", fmt.Sprint("cs", cg, g.gsk), true)
+	if thorough {
+		for t, j := range members {
+			cs.add(fmt.Sprintf("CCSign %s %s %s", zs(g.keys[j]), ptTerm(hb), sigTerms[t]), map[string]interface{}{"kind": "curve-sign-share", "member": j})
+			res.Count("curve-sign", fmt.Sprint("cs", cg, g.keys[j]), true)
+		}
+		if cg == 0 {
+			cs.add(fmt.Sprintf("CCFull %s %s %s", zlist(xs), hx.CoqList(sigTerms), ptTerm(out2)), map[string]interface{}{"kind": "curve-full", "ids": strs(xs)})
+			res.Count("curve-full", fmt.Sprint("cf", cg), true)
+		}
 	}
 }
 
